@@ -128,8 +128,8 @@ def cont_check(dimkind, case, rec):
 
 # ---------------------------------------------------------------------------------------------------------------
 def job_strategy(kind, tier):
-    ramp = st.lists(fl(-0.15, 0.3), min_size=1, max_size=5)
-    return st.fixed_dictionaries({"n": st.lists(st.integers(2, 3), min_size=3, max_size=3), "steps": st.lists(ramp, min_size=1, max_size=3), "fail": st.one_of(st.none(), st.none(), st.integers(0, 8)),
+    ramp = st.lists(fl(-0.15, 0.3), min_size=1, max_size=5 if tier == "quick" else 8)
+    return st.fixed_dictionaries({"n": st.lists(st.integers(2, 3), min_size=3, max_size=3), "steps": st.lists(ramp, min_size=1, max_size=3 if tier == "quick" else 4), "fail": st.one_of(st.none(), st.none(), st.integers(0, 8)),
                                   "pdefault": st.booleans(), "cdefault": st.booleans(), "custom": st.booleans(), "jitter": st.booleans(), "seed": st.integers(0, 2**16)})
 
 
